@@ -211,9 +211,11 @@ def run_impl(case):
         if type(ex).__name__ == 'CaseTimeout' and not exccat.RAISED:
             raise
         name, wrapped = base_name(ex)
+        if name == 'UFlaky' and case['planted'] == 'UFlakyBad':
+            name = 'UFlakyBad'           # the model names the un-rebuildable instances apart
         origin = getattr(ex, '_GlomError__wrapped', None)
         if any(ex is p for p in exccat.RAISED):
-            return {'seen': 'same', 'cls': exccat.name_of(type(ex))}
+            return {'seen': 'same', 'cls': ('UFlakyBad' if case['planted'] == 'UFlakyBad' and type(ex) is exccat.cls('UFlaky') else exccat.name_of(type(ex)))}
         if origin is not None and any(origin is p for p in exccat.RAISED):
             return {'seen': 'new', 'wrapped': wrapped, 'cls': name, 'args_same': ex.args == origin.args,
                     'attrs_kept': all(getattr(ex, k, None) == v and hasattr(ex, k) for k, v in public_attrs(origin).items()),
